@@ -17,7 +17,6 @@ ASSUMPTIONS = ['histories are generated from an abstract legality model of the p
 EXHAUSTIVE_GENS = ('script',)
 DECIDING_REQUIRED = ('subscriber_logs_checked', 'futures_checked', 'callbacks_observed', 'histories_with_connection_end')
 BUDGET_S = {'quick': 100, 'thorough': 2400}
-CASE_WALL_LIMIT = {'quick': 60, 'thorough': 300}
 
 DEPTH = {'quick': {'rr': 4, 'stream': 4, 'channel': 3}, 'thorough': {'rr': 6, 'stream': 5, 'channel': 4}}
 BATCH = 60
